@@ -52,6 +52,12 @@ def forced_scenarios():
         "down": [S("newh", h="h1"), S("join", "p1"), call("c1", "free"), S("leave", "p1", m="down"), call("c1", "free"), S("join", "p1"), call("c1", "free")],
         "closeOut": [S("newh", h="h1"), S("join", "p1"), call("c1", "free"), S("leave", "p1", m="closeOut"), call("c1", "free")],
         "resetOut": [S("newh", h="h1"), S("join", "p1"), call("c1", "free"), S("leave", "p1", m="resetOut"), call("c1", "free")],
+        # a call whose context is already cancelled while events are pending: it may return the event or the context
+        # error, but it must not swallow the event
+        "cancelled-pending": [S("newh", h="h1"), S("join", "p1"), S("cancel", c="c1"), call("c1", "free"), S("leave", "p1", m="unsub"),
+                              call("c2", "free"), call("c2", "free")],
+        "cancelled-pending2": [S("newh", h="h1"), S("join", "p1"), S("join", "p2"), S("cancel", c="c1"), call("c1", "step"), call("c1", "free"),
+                               call("c2", "free")],
         # handler cancel: nothing after it, the other handler is not disturbed
         "cancelh": [S("newh", h="h1"), S("newh", h="h2"), S("join", "p1"), S("cancelh", h="h1"), S("join", "p2"),
                     call("c1", "free"), call("c1", "free"), call("c2", "free", "h2"), call("c2", "free", "h2"), call("c2", "free", "h2")],
@@ -256,11 +262,11 @@ def coverage(traces, names):
     """Coverage obligations, counted on validated real traces."""
     hits = {k: 0 for k in ("seeded_handler", "elision_pair", "burst_jlj", "concurrent_calls", "cancelled_call", "handler_cancel",
                            "resub_no_join", "reunsub_no_leave", "disconnect_leave", "closed_stream_leave", "rearm_two_parked",
-                           "signal_while_parked", "ret_join", "ret_leave", "blocked_call", "free_concurrent_wake", "flap")}
+                           "signal_while_parked", "ret_join", "ret_leave", "blocked_call", "free_concurrent_wake", "flap", "cancelled_ctx_gets_event")}
     for sc in traces:
         mem, live, handlers = set(sc[0].get("mem", [])), set(), set()
         pend = {}           # peer -> number of membership changes since the last consumption (while a handler is live)
-        open_calls, parked_prev = {}, set()
+        open_calls, parked_prev, dead_ctx = {}, set(), set()
         win, armed, armed_rets = None, set(), 0      # window with >= 2 calls parked on one handler
         last_stim = None
         for e in sc[1:]:
@@ -304,8 +310,10 @@ def coverage(traces, names):
                         hits["signal_while_parked"] += 1
                 mem = new
                 last_stim = None
+            elif k == "cancel":
+                dead_ctx.add(e["ctx"])
             elif k == "call":
-                open_calls[e["id"]] = e
+                open_calls[e["id"]] = dict(e, precancelled=e["ctx"] in dead_ctx)
             elif k == "ret":
                 c = open_calls.pop(e["id"], None)
                 if e["k"] == "J":
@@ -314,11 +322,13 @@ def coverage(traces, names):
                     hits["ret_leave"] += 1
                 if e["k"] in ("J", "L"):
                     pend[e["p"]] = 0
+                    if c is not None and c["precancelled"]:
+                        hits["cancelled_ctx_gets_event"] += 1
                     if e["id"] in armed:
                         armed_rets += 1
                         if armed_rets == 2:
                             hits["rearm_two_parked"] += 1
-                if e["k"] == "ctx" and c is not None and not c["c"].startswith("d"):
+                if e["k"] == "ctx" and c is not None and not c["c"].startswith("dh"):
                     hits["cancelled_call"] += 1
             elif k == "quiet":
                 if len(e["blocked"]) + len(e["parked"]) >= 2:
@@ -419,8 +429,17 @@ def run(ctx):
         elif names & DRIFT:
             drift += 1
             ctx.notes.append("MODEL-DRIFT: scenario %s (%s): %s at line %d: %s" % (sc[0]["scn"], src.get("name"), sorted(names), k, json.dumps(bad)[:200]))
+        elif bad is not None and bad.get("e") == "ret" and isinstance(bad.get("id"), int) and bad.get("k") in ("J", "L", "ctx", "err") \
+                and any(e["e"] == "call" and e["id"] == bad["id"] for e in sc[:k]):
+            # a well-formed observation of the real code (a call that was started returned this) which no linearisation of the
+            # specification explains: that contradicts the property, it is not a failure of the machinery
+            pred = "P_C18_Elide" if bad["k"] in ("J", "L") else "P_C18_UnexpectedError"
+            vlib.add_violation(ctx, pred, {"pred": pred, "line": "ret", "kind": src.get("name", ""), "unexplained": True},
+                               "NextPeerEvent returned %s which is not a pending event of its handler under any linearisation: "
+                               "line %d of scenario %s (%s)" % (json.dumps(bad), k, sc[0]["scn"], src.get("name")),
+                               {"scenario": src, "trace": sc, "failing_line": k})
         else:
-            raise vlib.Inconclusive("trace line not explainable and no predicate named (spec/harness bug?): scenario %s (%s) line %d: %s"
+            raise vlib.Inconclusive("malformed trace: line not explainable and no predicate named (spec/harness bug?): scenario %s (%s) line %d: %s"
                                     % (sc[0]["scn"], src.get("name"), k, json.dumps(bad)[:300]))
     if drift > max(3, len(traces) // 20):
         raise vlib.Inconclusive("membership ground truth disagrees with the stimulus model in %d scenarios" % drift)
@@ -429,7 +448,7 @@ def run(ctx):
     hits = coverage(good, None)
     need = ["seeded_handler", "elision_pair", "burst_jlj", "concurrent_calls", "cancelled_call", "handler_cancel", "resub_no_join",
             "reunsub_no_leave", "disconnect_leave", "closed_stream_leave", "rearm_two_parked", "signal_while_parked",
-            "ret_join", "ret_leave", "blocked_call", "flap"]
+            "ret_join", "ret_leave", "blocked_call", "flap", "cancelled_ctx_gets_event"]
     missing = [n for n in need if not hits.get(n)]
     if missing and not ctx.violations:
         raise vlib.Inconclusive("coverage obligation not met: never observed on a validated trace: %s" % missing)
@@ -462,4 +481,6 @@ def run(ctx):
         "consumers are scheduled through a context whose Done() parks the caller: the only forced schedule point is between the unlock "
         "after an empty pull and the select; the remaining interleavings are the Go scheduler's (covered exhaustively by the model only)",
         "a handler that was cancelled is only required not to deliver events produced after the cancel",
+        "a call whose context is cancelled may return the context error whatever the log holds (checking the context first is allowed) "
+        "but must not consume an event when it does; only a call seen blocked in the select counts as evidence of a drained handler",
         "sync.Mutex, capacity-1 channel and select behave as modelled"])
